@@ -1,14 +1,15 @@
 """Registry: obligation id -> spec, property id -> obligations it is decided by."""
-from . import uni
+from . import uni, out
 
+MODS = (uni, out)
 OBLIGATIONS = {}
-for mod in (uni,):
+for mod in MODS:
     for ob in mod.OBLIGATIONS:
         assert ob['id'] not in OBLIGATIONS
         OBLIGATIONS[ob['id']] = ob
 
 PROPERTIES = {}
-for mod in (uni,):
+for mod in MODS:
     for pid, spec in getattr(mod, 'PROPERTIES', {}).items():
         cur = PROPERTIES.setdefault(pid, dict(obligations=[], assumptions=[], not_decided=''))
         cur['obligations'] += [o for o in spec['obligations'] if o not in cur['obligations']]
